@@ -13,7 +13,13 @@ buffer slot duplicated / aliased / trimmed / contents differ, the struct's plain
 The same scripts run through `sqfsmodel c19 sim` (hooks as in /repo), `sim-mix`, `sim-current` (hooks before the fix commits);
 compared: control-line answers (probe, refcounts of the shared file and compressor after every drop), outcome class,
 independence/equivalence relations of the state hashes vs the model's `view`; o≡t1 and c≡t2 line by line and by state hash;
-`describe <kind>` vs everything the probe saw; `copystate` (drCopy/mrCopy on dumped real states); table answers (`tbl`).
+`describe <kind>` vs everything the probe saw; `copystate` (drCopy/mrCopy on dumped real states; rbCopy + dcResolve on the
+dumped inode cache of every copied directory reader, every node byte); table answers (`tbl`); the generic containers under the
+hooks as units (`unit`: real rbtree_init/insert/lookup/copy for key sizes 1..17 x value sizes 0..24, array_init_copy,
+str_table_copy — every answer and every dumped byte predicted by Sqfs/Model/RbTree.lean / C19Units.lean).
+Directory readers: images incl. one whose inode table exceeds 1 MiB (references above 2^32 / 2^36), with and without
+SQFS_DIR_READER_DOT_ENTRIES, directory inodes loaded before the copy (or nothing at all), the copy asked for "." / "..",
+inode number -> reference and path resolution from those inodes; compared with original, twins and a reader without history.
 Everything that evaluates nothing, or that a helper does not understand, is a failure of the check (CheckFailure), not a pass.
 """
 import json, os, re, subprocess, zlib
@@ -26,7 +32,8 @@ REQUIRED = ["Sqfs.C19." + t for t in (
     "desc_wellformed", "copy_wellformed", "copy_wellformed_all", "copy_balanced", "copy_fail_safe", "release_safe", "release_safe_either_order",
     "no_leak", "copy_then_release_restores", "refcount_exact", "copy_equiv", "copy_same_buffer_sizes", "copy_independent", "copy_buffers_disjoint", "constructed_balanced", "grab_balanced",
     "copy_equiv_idTable", "copy_equiv_fragTable", "copy_fail_restores", "ops_release_safe", "copy_independent_mixed",
-    "copy_equiv_dataReader", "copy_equiv_metaReader", "table_fill_is_adds", "envHeap_balanced")]
+    "copy_equiv_dataReader", "copy_equiv_metaReader", "table_fill_is_adds", "envHeap_balanced",
+    "rbtree_copy_equiv", "rbtree_built_wellformed", "copy_equiv_dirCache", "array_copy_equiv", "strtable_copy_equiv")]
 COMPS = ["gzip", "xz", "lzma", "lz4", "zstd"]
 ENV_KINDS = ("meta", "dir", "data", "xattr")
 WRAP = "-Wl,--wrap=malloc,--wrap=calloc,--wrap=realloc,--wrap=dup,--wrap=deflateInit2_,--wrap=inflateInit_,--wrap=ZSTD_createCCtx"
@@ -118,6 +125,19 @@ def make_images(ctx, gen, specs):
     p = d / "img_manyx.sqfs"
     gensq(["-c", "gzip", "-b", "8192", "-F", str(d / "packx.txt"), "-D", str(d), "-A", str(d / "xax.txt"), "-f", "-q", str(p)], "manyx")
     imgs["manyx"] = p
+    # large inode table: directory inodes below 64 KiB, between 64 KiB and 1 MiB and above 1 MiB of (compressed) inode
+    # table, so that inode references (block start << 16 | offset) need more than 32 and more than 36 bits.  The bulk are
+    # symbolic links with incompressible 2000-byte targets.
+    cs = "abcdefghijklmnopqrstuvwxyzABCDEFGHIJKLMNOPQRSTUVWXYZ0123456789_-"
+    pack = ["dir /0a 0755 0 0", "dir /0a/sub 0755 0 0", "slink /0a/sub/x 0777 0 0 y", "dir /a 0755 0 0"]
+    pack += ["slink /a/l%04d 0777 0 0 %s" % (i, "".join(cs[b & 63] for b in r.randbytes(2000))) for i in range(60)]
+    pack += ["dir /m 0755 0 0", "dir /m/n 0755 0 0", "dir /m/n/deep 0755 0 0", "slink /m/n/deep/x 0777 0 0 y", "dir /m/o 0755 0 0", "dir /p 0755 0 0"]
+    pack += ["slink /p/l%04d 0777 0 0 %s" % (i, "".join(cs[b & 63] for b in r.randbytes(2000))) for i in range(640)]
+    pack += ["dir /z 0755 0 0", "dir /z/sub 0755 0 0", "dir /z/sub/deep 0755 0 0", "slink /z/sub/deep/x 0777 0 0 y"]
+    (d / "packbig.txt").write_text("\n".join(pack) + "\n")
+    p = d / "img_bigino.sqfs"
+    gensq(["-c", "gzip", "-b", "8192", "-F", str(d / "packbig.txt"), "-D", str(d), "-f", "-q", str(p)], "bigino")
+    imgs["bigino"] = p
     # damaged image: first data block replaced by a valid zlib stream that inflates to 100 bytes only
     (d / "tree8192" / "f.bin").write_bytes(bytes(r.getrandbits(4) for _ in range(2 * 8192 + 500)))
     (d / "pack2.txt").write_text("file /f.bin 0644 0 0 tree8192/f.bin\n")
@@ -145,6 +165,29 @@ CACHE_ENDINGS = {
     "full-then-fragment": ["read /full.bin 0 100", "frag /frag3.bin"],
 }
 PATHS_D = ["/", "/d1", "/d1/d2", "/e", "/nope", "/small.txt"]
+# directory readers: (directories, other paths, (start directory, relative path) pairs, inode numbers worth asking for) per image family
+DIRSETS = {
+    "std": {"dirs": ["/", "/d1", "/d1/d2", "/e"], "other": ["/nope", "/small.txt", "/d1/mid.bin", "/lnk"],
+            "rel": [("/d1", "d2"), ("/", "d1/d2"), ("/d1", "-"), ("/e", "zero.bin"), ("/d1/d2", "-"), ("/", "-"), ("/d1", "nope")],
+            "inums": list(range(0, 18)), "deep": ["/d1/d2", "/d1", "/e"]},
+    # `bigino`: /0a/sub sits in the first 64 KiB of the inode table, /m/** behind 64 KiB, /z/** and the root behind 1 MiB
+    "bigino": {"dirs": ["/", "/0a", "/0a/sub", "/a", "/m", "/m/n", "/m/n/deep", "/m/o", "/p", "/z", "/z/sub", "/z/sub/deep"],
+               "other": ["/nope", "/0a/sub/x", "/m/n/deep/x", "/a/l0003", "/p/l0100", "/z/sub/deep/x"],
+               "rel": [("/z/sub", "deep"), ("/z", "sub/deep"), ("/z/sub", "-"), ("/m/n", "deep"), ("/m", "n/deep/x"), ("/m/n/deep", "-"), ("/", "z/sub"),
+                       ("/", "-"), ("/0a", "sub"), ("/0a/sub", "-"), ("/m", "o"), ("/z/sub/deep", "x")],
+               "inums": [0, 1, 2, 3, 4, 5] + list(range(60, 72)) + list(range(700, 720)), "deep": ["/z/sub/deep", "/m/n/deep", "/z/sub", "/m/o", "/0a/sub", "/m/n", "/z"]},
+}
+
+
+def gen_dir_op(r, ds):
+    """one operation of a directory reader: listing, path resolution from the root and from a start inode, "." / ".." entries
+    with the inode behind them, inode number -> reference"""
+    dirs, other = ds["dirs"], ds["other"]
+    anyp = lambda: r.choice(dirs + dirs + other)
+    sd, rel = r.choice(ds["rel"])
+    return r.choice(["root", "list " + anyp(), "list " + r.choice(dirs), "resolve " + anyp(), "inum %d" % r.choice(ds["inums"]),
+                     "dots " + r.choice(dirs), "dots " + anyp(), "inumof " + r.choice(dirs), "inumof " + anyp(), "rel %s %s" % (sd, rel),
+                     "walk " + r.choice(dirs)])
 
 
 def hexs(b):
@@ -172,7 +215,7 @@ def gen_op(r, kind, sizes):
     if kind == "meta":
         return r.choice(["seek 0 %d" % r.choice([0, 16, 32, 100, 300, 8191, 9000]), "seek %d 0" % r.randint(1, 400), "read %d" % r.choice([1, 2, 16, 32, 100, 600]), "read 8", "pos"])
     if kind == "dir":
-        return r.choice(["root", "list " + r.choice(PATHS_D), "list " + r.choice(PATHS_D), "resolve " + r.choice(PATHS_D + PATHS_F), "inum %d" % r.randint(0, 14)])
+        return gen_dir_op(r, DIRSETS[sizes.get("dirset", "std")])
     if kind == "data":
         p = r.choice(PATHS_F)
         return r.choice(["read %s %d %d" % (p, r.choice([0, 1, 100, 8000, 8192, 8193, 16384, 20000, 30000]), r.choice([1, 100, 5000, 9000, 40000])),
@@ -237,8 +280,18 @@ class Scenario:
         self.mlines.append("%s %s%s %s" % (t, w[0], "!" if mark else "", " ".join(x[:40] for x in w[1:]) or "x"))
         return len(self.lines) - 1
 
+    def fresh(self, op, i):
+        """directory readers: the same history-independent question to a reader created for it; must answer like line i"""
+        if self.kind == "dir" and op.split()[0] in DIR_HISTORY_FREE:
+            self.lines.append("f " + op); self.mlines.append("f " + op)
+            self.pairs.append((i, len(self.lines) - 1))
+
     def text(self):
         return "scenario %s %s\n%s\nend\n" % (self.tag, self.args, "\n".join(self.lines))
+
+
+# what these answer does not depend on what the reader did before (path resolution from the root loads every inode it needs)
+DIR_HISTORY_FREE = ("dots", "list", "resolve", "walk", "root")
 
 
 def gen_scenario(ctx, tag, kind, imgs, sizes, variant=None):
@@ -276,14 +329,17 @@ def gen_scenario(ctx, tag, kind, imgs, sizes, variant=None):
         ending = None
         if kind == "data" and variant and variant.startswith("cache:"):
             ending, variant = variant.split(":")[1], variant.split(":")[2]
-        dirflag = None
+        dirflag, no_history = None, False
         if kind == "dir" and variant and ":" in variant:
-            variant, dirflag = variant.split(":")
+            parts = variant.split(":")
+            variant, dirflag, no_history = parts[0], parts[1], len(parts) > 2     # `<image>:<flags>:fresh`: the copy is made of a reader without history
         img = imgs["damaged"] if damaged else imgs[variant or "gzip"]
         args = "%s %s" % (kind, img) + (" %s" % (dirflag if dirflag is not None else r.choice([0, 1])) if kind == "dir" else "")
         mk = kind
         if variant == "manyx":
             sizes = dict(sizes, xattr_ids=MANYX)
+        if kind == "dir":
+            sizes = dict(sizes, dirset="bigino" if variant == "bigino" else "std")
     s = Scenario(tag, kind, args, mk)
     s.damaged = damaged
     if kind == "wfile":
@@ -311,7 +367,7 @@ def gen_scenario(ctx, tag, kind, imgs, sizes, variant=None):
 
     marked = lambda op: damaged and op.startswith("read /f.bin")
     # history before the copy: identical on o and both twins
-    for op in hist_ops(r.choice([0, 1, 2, 5, 12]) if not damaged else r.randint(0, 2)):
+    for op in hist_ops((0 if kind == "dir" and no_history else r.choice([0, 1, 2, 5, 12])) if not damaged else r.randint(0, 2)):
         i = s.op("o", op)
         j = s.op("t1", op); k = s.op("t2", op)
         s.pairs += [(i, j), (i, k)]
@@ -320,6 +376,21 @@ def gen_scenario(ctx, tag, kind, imgs, sizes, variant=None):
             i = s.op("o", op)
             j = s.op("t1", op); k = s.op("t2", op)
             s.pairs += [(i, j), (i, k)]
+    dir_after = []
+    if kind == "dir":
+        # directory inodes are loaded before the copy (they enter the inode-number -> reference cache of a reader created
+        # with SQFS_DIR_READER_DOT_ENTRIES); the copy, the original and the twins are then asked for exactly those: "."
+        # and ".." with the inode behind them, inode number -> reference, path resolution starting at those inodes
+        ds = DIRSETS[sizes["dirset"]]
+        loaded = r.sample(ds["deep"], r.randint(1, min(3, len(ds["deep"]))))
+        for pth in ([] if no_history else loaded):
+            for op in (["walk " + pth] if r.random() < 0.5 else ["resolve " + pth, "list " + pth]):
+                i = s.op("o", op)
+                j = s.op("t1", op); k = s.op("t2", op)
+                s.pairs += [(i, j), (i, k)]
+        for pth in loaded:
+            dir_after += ["dots " + pth, "inumof " + pth, "inumof " + (pth.rsplit("/", 1)[0] or "/")]
+        dir_after += ["rel %s %s" % pr for pr in ds["rel"] if pr[0] in loaded] + ["dots /", "inumof /"]
     # the user may hold more than one reference
     extra = {"o": 0, "c": 0}
     if r.random() < 0.25:
@@ -330,8 +401,8 @@ def gen_scenario(ctx, tag, kind, imgs, sizes, variant=None):
     s.copy_at = len(s.lines)
     s.ctl("copy")
     s.ctl("views")
-    if kind in ("data", "meta"):
-        # the state of original and copy, for the function-level comparison with drCopy / mrCopy
+    if kind in ("data", "meta", "dir"):
+        # the state of original and copy, for the function-level comparison with drCopy / mrCopy / rbCopy
         s.ctl("dump o"); s.ctl("dump c")
     if r.random() < 0.2:
         s.ctl("grab c"); extra["c"] += 1
@@ -347,6 +418,16 @@ def gen_scenario(ctx, tag, kind, imgs, sizes, variant=None):
             for t, tw in (("c", "t2"), ("o", "t1")):
                 i = s.op(t, "read %s 0 40000" % pth); j = s.op(tw, "read %s 0 40000" % pth)
                 s.pairs.append((i, j))
+    for op in dir_after:
+        ic = None
+        for t, tw in (("c", "t2"), ("o", "t1")):
+            i = s.op(t, op); j = s.op(tw, op)
+            s.pairs.append((i, j))
+            if t == "c":
+                ic = i
+            else:
+                s.pairs.append((ic, i))                           # and the copy answers what the original answers
+        s.fresh(op, ic)
     if kind != "xwr" and not damaged:
         # every scenario uses the copy at least once while both objects are alive (then the original)
         first = hist_ops(1)[0]
@@ -355,6 +436,7 @@ def gen_scenario(ctx, tag, kind, imgs, sizes, variant=None):
         for t, tw in (("c", "t2"), ("o", "t1")):
             i = s.op(t, first); j = s.op(tw, first)
             s.pairs.append((i, j))
+            s.fresh(first, i)
             s.ctl("views")
     post = hist_ops(r.choice([1, 3, 6, 12]))
     if kind == "xwr":
@@ -381,6 +463,8 @@ def gen_scenario(ctx, tag, kind, imgs, sizes, variant=None):
             i = s.op(t, x, marked(x))
             j = s.op("t1" if t == "o" else "t2", x)
             s.pairs.append((i, j))
+            if not env_dropped:
+                s.fresh(x, i)
             s.ctl("views")
         elif ev == "drop":
             while extra[x] > 0:
@@ -819,17 +903,20 @@ def check_copystate(ctx, scs, hres):
     real copy; the cache invariant (specification) must hold of every real original"""
     pairs = []
     for s, (hans, _) in zip(scs, hres):
-        if s.kind not in ("data", "meta") or s.failcopy or s.copy_at is None:
+        if s.kind not in ("data", "meta", "dir") or s.failcopy or s.copy_at is None:
             continue
-        idx = [i for i, l in enumerate(s.lines) if l in ("dump o", "dump c") and i < len(hans)]
-        if len(idx) == 2 and hans[idx[0]].startswith("dump o ") and hans[idx[1]].startswith("dump c "):
-            pairs.append((s, hans[idx[0]], hans[idx[1]]))
+        io = next((i for i, l in enumerate(s.lines) if l == "dump o" and i < len(hans)), None)
+        ic = next((i for i, l in enumerate(s.lines) if l == "dump c" and i < len(hans)), None)
+        if io is not None and hans[io].startswith("dump o "):
+            # (a run that stopped before the copy could be dumped still counts: the model says what the dump must be)
+            pairs.append((s, hans[io], hans[ic] if ic is not None and hans[ic].startswith("dump c ") else "<the run stopped before the copy was dumped>"))
     if not pairs:
-        raise vlib.CheckFailure("no state dump of a copied data / meta reader in this run")
+        raise vlib.CheckFailure("no state dump of a copied data / meta / directory reader in this run")
     out = ctx.driver(["c19", "copystate"], "".join(o + "\n" for _, o, _ in pairs))
     if len(out) != len(pairs):
         raise vlib.CheckFailure("copystate: %d answers for %d dumps" % (len(out), len(pairs)))
-    bad, st = [], {"data": 0, "meta": 0, "data_block_cached": 0, "frag_block_cached": 0, "short_block_cached": 0}
+    bad, st = [], {"data": 0, "meta": 0, "dir": 0, "data_block_cached": 0, "frag_block_cached": 0, "short_block_cached": 0,
+                   "dir_cache_nodes": 0, "dir_refs_above_2^32": 0, "dir_refs_above_2^36": 0, "dir_without_cache": 0, "dir_empty_cache": 0}
     for (s, o, c), m in zip(pairs, out):
         if m == "bad-op":
             raise vlib.CheckFailure("copystate: the model driver could not parse `%s…`" % o[:120])
@@ -839,12 +926,232 @@ def check_copystate(ctx, scs, hres):
             st["data_block_cached"] += kv["dblk"] != "N"
             st["frag_block_cached"] += kv["fblk"] != "N"
             st["short_block_cached"] += (kv["dblk"] != "N" and int(kv["dsz"]) < int(kv["bs"])) or (kv["fblk"] != "N" and int(kv["fsz"]) < int(kv["bs"]))
+        if s.kind == "dir":
+            kv = dict(w.split("=", 1) for w in o.split()[3:])
+            if kv["tree"] == "none":
+                st["dir_without_cache"] += 1
+            else:
+                kp, vs = int(kv["kp"]), int(kv["vs"])
+                st["dir_empty_cache"] += kv["tree"] == "x"
+                for tok in kv["tree"].split(","):
+                    if tok != "x":
+                        st["dir_cache_nodes"] += 1
+                        ref = int.from_bytes(bytes.fromhex(tok.split(":")[1])[kp:kp + vs], "little")
+                        st["dir_refs_above_2^32"] += ref >= 1 << 32
+                        st["dir_refs_above_2^36"] += ref >= 1 << 36
         if m != c + " inv=1":
             field = next((a.split("=")[0] for a, b in zip(m.split(), (c + " inv=1").split()) if a != b), "?")
             bad.append((s, field, "inv=0" if m.endswith("inv=0") else "", (o.replace("dump o ", "dump c ", 1) != c)))
+    floors = []
     if st["data"] and not (st["data_block_cached"] and st["frag_block_cached"] and st["short_block_cached"]):
-        raise vlib.CheckFailure("copystate: no copied data reader had a cached data block, a cached fragment block and a short block: %s" % st)
+        floors.append("copystate: no copied data reader had a cached data block, a cached fragment block and a short block: %s" % st)
+    if not (st["dir_refs_above_2^32"] and st["dir_refs_above_2^36"] and st["dir_without_cache"] and st["dir_empty_cache"]):
+        floors.append("copystate: the copied directory readers lacked a cached reference above 2^32, one above 2^36, a reader without cache or one with an empty cache: %s" % st)
+    if not (st["data"] and st["meta"] and st["dir"]):
+        floors.append("copystate: no state dump of some reader kind: %s" % st)
+    st["floor_problems"] = floors
     return bad, st
+
+
+# --------------------------------------------------------------------------------------------- generic containers as units
+def unit_bytes(r, n, nonzero_tail=True):
+    b = bytearray(r.randbytes(n)) if r.random() < 0.5 else bytearray(r.randint(1, 255) for _ in range(n))
+    if n and nonzero_tail:
+        b[-1] |= 0x80                       # the last byte of every value / element is never zero
+    return bytes(b)
+
+
+class Unit:
+    """a unit scenario: objects o and c only; `same` = pairs of lines whose answers the property itself requires to be
+    equal (copy vs original right after the copy), everything is also predicted by the model"""
+    def __init__(self, tag, kind, args):
+        self.tag, self.kind, self.args, self.lines, self.same = tag, kind, args, [], []
+
+    def add(self, l):
+        self.lines.append(l)
+        return len(self.lines) - 1
+
+    def text(self):
+        return "scenario %s %s\n%s\nend\n" % (self.tag, self.args, "\n".join(self.lines))
+
+
+def gen_rbt_unit(r, tag, ks, vs, nmax, fail=False):
+    u = Unit(tag, "rbt", "rbt %d %d" % (ks, vs))
+    n = r.choice([1, 2, 3, 5, 8, 13, 21, 40][:max(1, nmax)])
+    keys = []
+    for _ in range(n):
+        k = unit_bytes(r, ks, False) if r.random() < 0.9 or not keys else r.choice(keys)      # duplicates happen (inserted to the right)
+        keys.append(k)
+        u.add("o ins %s %s" % (hexs(k), hexs(unit_bytes(r, vs))))
+    u.add("o dump")
+    if fail:
+        u.add("failcopy %d" % r.randint(1, n))
+        u.add("o dump")
+        for k in keys[:4]:
+            u.add("o look " + hexs(k))
+        return u
+    d0 = len(u.lines) - 1
+    u.add("copy")
+    u.same.append((d0, u.add("c dump")))
+    u.same.append((d0, u.add("o dump")))
+    for k in dict.fromkeys(keys + [unit_bytes(r, ks, False)]):
+        i = u.add("c look " + hexs(k)); j = u.add("o look " + hexs(k))
+        u.same.append((i, j))
+    # afterwards they are independent: inserts into one are not seen by the other
+    for t, other in r.sample([("c", "o"), ("o", "c")], 2):
+        for _ in range(r.randint(1, 3)):
+            k = unit_bytes(r, ks, False)
+            u.add("%s ins %s %s" % (t, hexs(k), hexs(unit_bytes(r, vs))))
+            u.add("%s look %s" % (other, hexs(k))); u.add("%s look %s" % (t, hexs(k)))
+    u.add("o dump"); u.add("c dump")
+    first = r.choice("oc")
+    u.add("drop " + first)
+    rest = "c" if first == "o" else "o"
+    for k in keys[:3]:
+        u.add("%s look %s" % (rest, hexs(k)))
+    u.add("%s dump" % rest)
+    if r.random() < 0.5:
+        u.add("drop " + rest)
+    return u
+
+
+def gen_arr_unit(r, tag, sz, big, fail=False):
+    u = Unit(tag, "arr", "arr %d" % sz)
+    n = r.choice([0, 1, 5, 127, 128, 129] + ([300, 1000] if big else []))
+    if fail and n == 0:
+        n = 3
+    for _ in range(n):
+        u.add("o app " + hexs(unit_bytes(r, sz)))
+    if n:
+        u.add("o set %d %s" % (r.randint(0, n - 1), hexs(unit_bytes(r, sz))))
+    u.add("o dump")
+    if fail:
+        u.add("failcopy 1"); u.add("o dump"); u.add("o app " + hexs(unit_bytes(r, sz))); u.add("o get %d" % n)
+        return u
+    u.add("copy")
+    u.add("c dump"); u.add("o dump")
+    for i in sorted(set([0, n // 2, max(0, n - 1), n])):
+        a = u.add("c get %d" % i); b = u.add("o get %d" % i)
+        u.same.append((a, b))
+    a = u.add("c used"); b = u.add("o used"); u.same.append((a, b))
+    for t in r.sample(["c", "o"], 2):
+        for _ in range(r.choice([1, 2, 130] if big else [1, 2, 3])):
+            u.add("%s app %s" % (t, hexs(unit_bytes(r, sz))))
+        u.add("%s set %d %s" % (t, r.randint(0, n + 1), hexs(unit_bytes(r, sz))))
+        u.add("c dump"); u.add("o dump")
+    first = r.choice("oc")
+    u.add("drop " + first)
+    u.add("%s dump" % ("c" if first == "o" else "o"))
+    return u
+
+
+def gen_strt_unit(r, tag, big, fail=False):
+    u = Unit(tag, "strt", "strt")
+    n = r.choice([0, 1, 3, 8, 20] + ([200] if big else []))
+    if fail:
+        n = r.choice([0, 1, 2, 4])
+    mk = lambda: bytes(r.randint(1, 255) for _ in range(r.choice([0, 1, 2, 7, 8, 9, 31, 40])))
+    strs = []
+    for _ in range(n):
+        x = mk() if r.random() < 0.8 or not strs else r.choice(strs)
+        strs.append(x)
+        u.add("o index " + hexs(x))
+    distinct = len(dict.fromkeys(strs))
+    for _ in range(r.randint(0, 2 * distinct)):
+        u.add("o %s %d" % (r.choice(["ref", "ref", "unref"]), r.randint(0, distinct)))
+    u.add("o dump")
+    if fail:
+        u.add("failcopy %d" % r.randint(1, distinct + 2 + (1 if distinct else 0)))
+        u.add("o dump")
+        for x in strs[:3]:
+            u.add("o index " + hexs(x))
+        u.add("o index " + hexs(b"new string")); u.add("o dump")
+        return u
+    d0 = len(u.lines) - 1
+    u.add("copy")
+    u.same.append((d0, u.add("c dump")))
+    u.same.append((d0, u.add("o dump")))
+    for i in range(distinct + 1):
+        a = u.add("c str %d" % i); b = u.add("o str %d" % i); u.same.append((a, b))
+        a = u.add("c count %d" % i); b = u.add("o count %d" % i); u.same.append((a, b))
+    for x in dict.fromkeys(strs):                       # known strings keep their index in the copy
+        a = u.add("c index " + hexs(x)); b = u.add("o index " + hexs(x)); u.same.append((a, b))
+    for t in r.sample(["c", "o"], 2):                   # new strings and use counts: independent
+        u.add("%s index %s" % (t, hexs(b"only in " + t.encode() + mk())))
+        u.add("%s ref %d" % (t, r.randint(0, distinct)))
+        u.add("c dump"); u.add("o dump")
+    first = r.choice("oc")
+    u.add("drop " + first)
+    rest = "c" if first == "o" else "o"
+    u.add("%s dump" % rest)
+    for x in strs[:3]:
+        u.add("%s index %s" % (rest, hexs(x)))
+    return u
+
+
+def gen_units(ctx):
+    """rbtree: every key size 1..17 x value size 0..24; arrays of element sizes 1..24, 40, 64; string tables; plus
+    allocation-failure variants of each"""
+    r, q = ctx.rng, ctx.quick()
+    us = []
+    for ks in range(1, 18):
+        for vs in range(0, 25):
+            for rep in range(1 if q else 4):
+                us.append(gen_rbt_unit(r, "r%d_%d_%d" % (ks, vs, rep), ks, vs, 5 if q else 8))
+    for i in range(40 if q else 400):
+        us.append(gen_rbt_unit(r, "rf%d" % i, r.randint(1, 17), r.randint(0, 24), 5 if q else 8, fail=True))
+    # the two layouts the library uses: directory cache (4 / 8), xattr writer block tree (40 / 4)
+    for i in range(4 if q else 60):
+        us.append(gen_rbt_unit(r, "rd%d" % i, 4, 8, 8))
+        us.append(gen_rbt_unit(r, "rx%d" % i, 40, 4, 8))
+    for sz in list(range(1, 25)) + [40, 64]:
+        for rep in range(1 if q else 6):
+            us.append(gen_arr_unit(r, "a%d_%d" % (sz, rep), sz, not q))
+        us.append(gen_arr_unit(r, "af%d" % sz, sz, False, fail=True))
+    for i in range(12 if q else 200):
+        us.append(gen_strt_unit(r, "s%d" % i, not q))
+    for i in range(12 if q else 150):
+        us.append(gen_strt_unit(r, "sf%d" % i, False, fail=True))
+    return us
+
+
+def check_units(ctx, us, hres):
+    """every answer of a unit scenario against `sqfsmodel c19 unit`; the specification (copy answers / dumps like the
+    original right after the copy) evaluated on the real answers first"""
+    out = ctx.driver(["c19", "unit"], "".join(u.text() for u in us))
+    if len(out) != sum(len(u.lines) + 2 for u in us):
+        raise vlib.CheckFailure("unit model answered %d lines, expected %d" % (len(out), sum(len(u.lines) + 2 for u in us)))
+    norm = lambda l: re.sub(r" count=\d+", "", l)        # an array's capacity is not part of what it answers
+    bad, k, stats = [], 0, {"answers": 0, "copies": 0, "failed_copies": 0, "spec_pairs": 0, "rbt_layouts": set(), "rbt_padded_value_tail_nonzero": 0}
+    for u, (hans, hexit) in zip(us, hres):
+        m = out[k + 1:k + 1 + len(u.lines)]
+        k += len(u.lines) + 2
+        if any(x == "bad-op" for x in m):
+            raise vlib.CheckFailure("unit model did not understand a line of scenario %s (%s): %r" % (u.tag, u.args, [l for l, a in zip(u.lines, m) if a == "bad-op"][:2]))
+        found = None
+        for i, j in u.same:
+            if i < len(hans) and j < len(hans):
+                stats["spec_pairs"] += 1
+                if norm(hans[i]) != norm(hans[j]) and found is None:
+                    found = (i, "right after the copy `%s` -> `%s` but `%s` -> `%s` (copy and original must answer alike)" % (u.lines[i], hans[i][:300], u.lines[j], hans[j][:300]), True)
+        if hexit[0] != "ok" or len(hans) != len(u.lines) + 1 or hans[-1] != "fds-at-end +0":
+            found = found or (len(hans), "exit %s after %d of %d lines" % (" ".join(hexit)[:300], len(hans), len(u.lines) + 1), True)
+        for i, l in enumerate(u.lines):
+            if i >= len(hans):
+                break
+            stats["answers"] += 1
+            if l.startswith(("copy", "failcopy")):
+                stats["copies" if hans[i].startswith("copy 0") else "failed_copies"] += 1
+                if u.kind == "rbt" and hans[i].startswith("copy 0"):
+                    ks, vs = int(u.args.split()[1]), int(u.args.split()[2])
+                    stats["rbt_layouts"].add((ks, vs))
+                    stats["rbt_padded_value_tail_nonzero"] += (ks % 8 != 0 and vs > 0)
+            if hans[i] != m[i] and found is None:
+                found = (i, "`%s` answers `%s`, the model says `%s`" % (l, hans[i][:300], m[i][:300]), False)
+        if found:
+            bad.append((u, hans, hexit) + found)
+    stats["rbt_layouts"] = len(stats["rbt_layouts"])
+    return bad, stats
 
 
 # --------------------------------------------------------------------------------------------- main
@@ -882,6 +1189,11 @@ def run(ctx):
             n = max(4, per_kind // len(ikeys))
             # directory readers: with and without the dot-entry cache, deterministically
             plan += [(kind, "%s:%d" % (k, i % 2) if kind == "dir" else k) for i in range(n)]
+    # directory readers over the image with the large inode table (references above 2^32 and 2^36), with and without the
+    # dot-entry cache
+    plan += [("dir", "bigino:%d" % (0 if i % 3 == 2 else 1)) for i in range(9 if ctx.quick() else 240)]
+    # ... and copies made of a reader that has not loaded anything yet (empty cache)
+    plan += [("dir", "%s:%d:fresh" % (k, f)) for k in ("gzip", "bigino") for f in (1, 1, 0)] * (1 if ctx.quick() else 10)
     plan += [("xattr", "noxattr")] * 3 + [("xattr", "manyx")] * (4 if ctx.quick() else 30) + [("data", "damaged")] * (4 if ctx.quick() else 20)
     for e in CACHE_ENDINGS:
         for k in ikeys:
@@ -939,6 +1251,7 @@ def run(ctx):
     stats = {"outcomes": {}, "kinds": {}, "findings": {}}
     pair_checks = 0
     view_checks = 0
+    fresh_checks = sum(1 for s, hr in zip(scs, hres) for i, l in enumerate(s.lines) if l.startswith("f ") and i < len(hr[0]) and not hr[0][i].startswith(("no-object", "fresh-failed")))
     for idx, (s, hr) in enumerate(zip(allsc, allres)):
         stats["kinds"][s.kind] = stats["kinds"].get(s.kind, 0) + 1
         pair_checks += sum(1 for i, j in s.pairs if i < len(hr[0]) and j < len(hr[0]))
@@ -967,11 +1280,41 @@ def run(ctx):
     for pr in dprob[:3]:
         ctx.violation("describe:%s" % pr.split(":")[0], "hook description and probe disagree: " + pr, {"problem": pr}, found_input=False)
     # state part of the reader hooks
+    floor_problems = []
     cbad, cstat = check_copystate(ctx, scs, hres)
+    floor_problems += cstat.pop("floor_problems")
     for s, field, inv, differs in cbad[:3]:
         ctx.violation("copystate:%s" % s.kind, "%s: the state of the real copy is not what %s yields on the real original's state (first difference: %s%s)%s" % (
-            s.kind, "drCopy" if s.kind == "data" else "mrCopy", field, ("; the original violates the cache invariant: " + inv) if inv else "",
+            s.kind, {"data": "drCopy", "meta": "mrCopy", "dir": "rbCopy (every node byte of the inode cache, resolve_inum of every cached inode)"}[s.kind], field, ("; the original violates the cache invariant: " + inv) if inv else "",
             "; the copy's state differs from the original's" if differs else ""), replay_dict(ctx, s, hres[scs.index(s)]), found_input=differs)
+    # directory readers: the copies were asked questions whose answer is a reference that does not fit 32 / 36 bits (counted
+    # on the twin that mirrors the copy, so that the floor does not depend on the copy being right)
+    hi = {"2^32": 0, "2^36": 0, "dots": 0}
+    for s, (hans, _) in zip(scs, hres):
+        if s.kind == "dir":
+            for l, a in zip(s.lines, hans):
+                if l.startswith("t2 ") and re.match(r"(inumof|rel|resolve|inum) 0 \d+$", a):
+                    ref = int(a.split()[2])
+                    hi["2^32"] += ref >= 1 << 32
+                    hi["2^36"] += ref >= 1 << 36
+                if l.startswith("t2 dots") and re.match(r"dots 0 2e:\d+:0:\d+ 2e2e:\d+:0:\d+$", a):
+                    hi["dots"] += int(a.split()[3].split(":")[1]) >= 1 << 32
+    for k, v in hi.items():
+        if v == 0:
+            floor_problems.append("no copied directory reader was asked for a reference above %s (%s): the upper half of cached references was never observed" % (k, hi))
+    # the generic containers under the hooks, as units: every answer predicted
+    us = gen_units(ctx)
+    ures = run_harness(ctx, harness, us)
+    ubad, ustat = check_units(ctx, us, ures)
+    for u, hans, hexit, i, what, found in ubad[:3]:
+        ctx.violation("unit:%s" % u.kind, "%s (%s): %s [scenario %s]" % ({"rbt": "rbtree_copy", "arr": "array_init_copy", "strt": "str_table_copy"}[u.kind], u.args, what, u.tag),
+                      {"scenario": u.text(), "answers": [a[:300] for a in hans[max(0, i - 3):i + 3]], "exit": hexit,
+                       "entry": {"unit": True, "kind": u.kind, "args": u.args, "lines": u.lines, "same": [list(p) for p in u.same]}}, found_input=found)
+    for name in ("answers", "copies", "failed_copies", "spec_pairs", "rbt_padded_value_tail_nonzero"):
+        if ustat[name] <= 0:
+            floor_problems.append("the unit scenarios evaluated no %s" % name)
+    if ustat["rbt_layouts"] < 17 * 25:
+        floor_problems.append("rbtree_copy succeeded for %d of the %d key size x value size layouts" % (ustat["rbt_layouts"], 17 * 25))
     # tables: exact answers
     tscs = run_tables(ctx, harness, 30 if ctx.quick() else 1500)
     tres = run_harness(ctx, harness, tscs)
@@ -984,31 +1327,39 @@ def run(ctx):
     copies_null = sum(1 for s, hr in zip(allsc, allres) if any(l.startswith("copy NULL") for l in hr[0]))
     # floors: a part that evaluated nothing is a failure of the check, not a pass
     for name, val in (("table answers", ttotal), ("successful copies", copies_ok), ("failed copies", copies_null), ("twin comparisons", pair_checks),
-                      ("view relations", view_checks)):
+                      ("view relations", view_checks), ("comparisons with a directory reader without history", fresh_checks)):
         if val <= 0:
-            raise vlib.CheckFailure("the check evaluated no %s" % name)
+            floor_problems.append("the check evaluated no %s" % name)
+    if floor_problems:
+        raise vlib.CheckFailure("; ".join(floor_problems)[:1500])
     ctx.cov.update({
-        "evaluations": sum(len(s.lines) for s in allsc) + sum(len(s.lines) for s in tscs),
+        "evaluations": sum(len(s.lines) for s in allsc) + sum(len(s.lines) for s in tscs) + sum(len(u.lines) for u in us),
+        "unit_scenarios": len(us), "units": ustat, "directory_copies_asked_for_high_references": hi,
         "distinct_nontrivial": nontrivial,
         "rule": "seeded scenarios per kind (5 compressors x {compress with random level/window/flags, uncompress}, id/fragment table, read-only file, "
                 "file opened for writing (copy refused), xattr writer, meta/dir/data/xattr reader over images made by the working tree's gensquashfs: %s, "
                 "plus an image without xattrs, one with %d xattr ids (two id blocks) and one with a damaged data block): "
                 "history of 0-12 operations, copy, 1-12 operations interleaved on original and copy, drops in shuffled order, optionally after the user's own "
                 "file/compressor references are gone; state hashes of all four objects after every step; every k-th acquisition inside sqfs_copy fails once "
-                "(malloc/calloc/realloc, dup, deflateInit2/inflateInit, ZSTD_createCCtx); non-trivial = scenario that reached sqfs_copy" % (
+                "(malloc/calloc/realloc, dup, deflateInit2/inflateInit, ZSTD_createCCtx); directory readers additionally over an image with a >1 MiB inode table, "
+                "1-3 directory inodes loaded before the copy (or none), then '.'/'..'/resolve_inum/path resolution from those inodes on copy, original, twins and a fresh reader; "
+                "unit scenarios of rbtree (key sizes 1..17 x value sizes 0..24 + 40/4, 1-40 nodes, values with non-zero last byte), array (element sizes 1..24,40,64; 0..1000 elements) "
+                "and string table (0..200 strings of 0..40 bytes) with copy, lookups of every key in copy and original, independent inserts afterwards, both release orders, a failing allocation; "
+                "non-trivial = scenario that reached sqfs_copy" % (
                     ", ".join("%s/%d" % sp for sp in specs), MANYX),
-        "scenarios": len(allsc), "alloc_failure_variants": len(fscs), "twin_comparisons": pair_checks, "view_relations_checked": view_checks,
+        "scenarios": len(allsc), "alloc_failure_variants": len(fscs), "twin_comparisons": pair_checks, "fresh_reader_comparisons": fresh_checks, "view_relations_checked": view_checks,
         "copies_ok": copies_ok, "copies_null": copies_null, "successful_operations_on_copies": okcount,
         "table_answers_compared_with_model": ttotal, "copystate": cstat, "descriptions_vs_probe": dfacts,
         "scenarios_per_kind": stats["kinds"], "real_outcomes": stats["outcomes"], "classified": stats["findings"],
         "samples": [{"scenario": s.text()[:600], "exit": hr[1]} for s, hr in list(zip(allsc, allres))[:2] + list(zip(allsc, allres))[-1:]],
-        "disagreements_checked": sum(stats["findings"].values()) + len(tbad) + len(cbad) + len(dprob),
+        "disagreements_checked": sum(stats["findings"].values()) + len(tbad) + len(cbad) + len(dprob) + len(ubad),
     })
     return ctx.finish(LEVEL, trusted_extra=[
         "the copy hooks are modelled by descriptions (header/buffer/pointer/reference actions, failure path); the probe of harness/h_c19.c re-derives them from fresh copies on every run",
         "genuine heap behaviour (use-after-free, leaks, overflow) is observed through ASan/LSan only; UBSan's nonnull-attribute check is off (memcpy(NULL,NULL,0) in array_init_copy of an empty array)",
         "answers of readers are compared between original/copy and identically driven twins; predicted by a model only for the tables; for the data and meta reader the state part of the hook is a model function compared with the real states",
-        "the per-kind state hashes of harness/h_c19.c (which fields and buffers make up the state of an object)"],
+        "the per-kind state hashes of harness/h_c19.c (which fields and buffers make up the state of an object; container nodes: every byte)",
+        "rbtree.c / array.c / str_table.c are modelled by hand (Sqfs/Model/RbTree.lean, C19Units.lean) and tied by the unit scenarios and the directory-cache dumps; the hash table inside str_table_t is not modelled"],
         assumptions=["third-party codecs are deterministic functions of their input and configuration (checked per block by the twin comparison)",
                      "operations of a kind read and write memory only through the object's own fields, buffers and owned sub-objects (observed: state hashes of the other objects, ASan)"])
 
@@ -1022,6 +1373,18 @@ def replay(ctx, path):
         return 1
     ctx.lean_build(["sqfsmodel"])
     harness, gen = build(ctx)
+    if rp["entry"].get("unit"):
+        e = rp["entry"]
+        u = Unit("replay", e["kind"], e["args"])
+        u.lines, u.same = e["lines"], [tuple(p) for p in e["same"]]
+        ures = run_harness(ctx, harness, [u])
+        print(u.text()); print("\n".join(ures[0][0])); print("exit", " ".join(ures[0][1]))
+        ubad, _ = check_units(ctx, [u], ures)
+        if not ubad:
+            print("replay: every answer is what the model predicts (no violation)")
+            return 0
+        print("replay: reproduces -> key=unit:%s: %s" % (u.kind, ubad[0][4][:600]))
+        return 1
     ctx.rng = random.Random("%s/%d" % (ctx.prop, int(body.get("seed", 0))))     # same images as the run that found it
     imgs, _ = make_images(ctx, gen, [("gzip", 8192), ("xz", 8192), ("lz4", 8192), ("zstd", 8192), ("lzma", 8192), ("gzip", 32768), ("gzip", 4096), ("zstd", 131072), ("xz", 16384)])
     s = scenario_from_entry(ctx, "replay", rp["entry"], imgs)
